@@ -6,6 +6,7 @@ System under simulation: integer_programming.optimal through prtpy.partition (re
 mip.Model.optimize. One run = one model (option vector) + one solver behaviour.
 """
 import itertools
+import math
 from collections import Counter
 
 from dsim import core, refmodels
@@ -158,6 +159,23 @@ def gen_plan(seed, tier):
         if r.random() < 0.08:
             c = r.choice([0, -1, sum(values) * 3 + 1])
         plan["constraint"] = {"kind": kind, "c": c}
+    if wm == "non-uniform" and r.random() < 0.35:
+        # an extra constraint on the WEIGHTED sums the library hands over (judged against the library's own restricted
+        # model, DESIGN 5.2): inequalities with a constant that keeps 0.004 clear of every reachable weighted sum
+        # (these are multiples of 1/weight, so two different ones are >= 0.008 apart), equalities only with an integer
+        cl = _copies_list(dict(plan, copies=1 if copies is None else copies))
+        ordered = sorted(refmodels.reachable_ordered(values, cl, k))
+        asc = [v for v in ordered if all(v[i] * weights[i + 1] <= v[i + 1] * weights[i] for i in range(k - 1))] or ordered
+        pick = r.choice(asc)
+        kind = r.choice(["mineq", "maxle", "minge"])
+        num, den = (pick[0], weights[0]) if kind in ("mineq", "minge") else (pick[-1], weights[-1])
+        if kind == "mineq" and num % den != 0:
+            kind = "minge"
+        if kind == "mineq":
+            c = num // den
+        else:
+            c = round(num / den + r.choice([0.004, 0.004, 0.004, -0.004, 1.004, -1.004, 3.004, -7.004]), 6)
+        plan["constraint"] = {"kind": kind, "c": c, "weighted": True}
     # a two-step history: the caller has used the same objective object for another request before
     if r.random() < 0.2:
         pk = r.choice([x for x in (1, 2, 3, 4) if x != k])
@@ -211,7 +229,7 @@ def _constraint_fn(con, weights):
     if con is None:
         return None
     w = weights[0] if weights else 1
-    c = con["c"] / w
+    c = con["c"] if con.get("weighted") else con["c"] / w
     kind = con["kind"]
     if kind == "mineq":
         return lambda sums: [sums[0] == c]
@@ -295,16 +313,70 @@ def _extract(plan, val):
     return [float(x) for x in plain(val)], None
 
 
+def _scale(w):
+    L = 1
+    for wi in w:
+        L = L * wi // math.gcd(L, wi)
+    return L, [L // wi for wi in w]
+
+
+def _constraint_ok_scaled(con, swv, L):
+    """The caller's constraint on sorted weighted sums given as integers scaled by L."""
+    c = con["c"] * L
+    if con["kind"] == "mineq":
+        return swv[0] == c
+    if con["kind"] == "maxle":
+        return swv[-1] <= c
+    return swv[0] >= c
+
+
+def _near_constant(con, swv, L):
+    """A reachable weighted sum closer than 1e-4 to the caller's constant without being exactly it (or exactly it for
+    an inequality): the solver's feasibility tolerance and the library's float division decide such a request, not the
+    model. Such requests are not judged."""
+    c = con["c"] * L
+    x = swv[-1] if con["kind"] == "maxle" else swv[0]
+    d = abs(x - c)
+    if con["kind"] == "mineq":
+        return 0 < d < 1e-4 * L
+    return d < 1e-4 * L
+
+
 def _reference(plan, cache):
     if "ref" in cache:
         return cache["ref"]
     values, k = plan["values"], plan["numbins"]
     cl = _copies_list(dict(plan, copies=1 if plan["copies"] is None else plan["copies"]))
     if _weights_kind(plan) == "non-uniform":
+        # Everything in integers: weighted sum i = s_i / w_i is represented by s_i * (L / w_i), L = lcm of the weights.
         ordered = refmodels.reachable_ordered(values, cl, k)
         w = plan["weights"]
-        best = min(refmodels.objective_value(plan["objective"], [s / wi for s, wi in zip(vec, w)]) for vec in ordered)
-        cache["ref"] = {"kind": "weighted", "optimum": best, "n": len(ordered), "feasible": True}
+        L, m = _scale(w)
+        con = plan["constraint"]
+        ambiguous = False
+        true_best = own_best = None
+        n_true = n_own = 0
+        for vec in ordered:
+            wv = [s * mi for s, mi in zip(vec, m)]
+            asc = all(wv[i] <= wv[i + 1] for i in range(k - 1))
+            swv = wv if asc else sorted(wv)
+            if con is not None:
+                if _near_constant(con, swv, L):
+                    ambiguous = True
+                if not _constraint_ok_scaled(con, swv, L):
+                    continue
+            v = refmodels.objective_value(plan["objective"], swv)
+            n_true += 1
+            if true_best is None or v < true_best:
+                true_best = v
+            if asc:
+                n_own += 1
+                if own_best is None or v < own_best:
+                    own_best = v
+        # optimum: over every assignment of bins to weights (what the property states); own_optimum: over the assignments
+        # whose weighted sums ascend in bin order (the model prtpy builds - the open known finding is the gap between the two)
+        cache["ref"] = {"kind": "weighted", "optimum": true_best, "own_optimum": own_best, "n": len(ordered), "feasible": n_true > 0,
+                        "own_feasible": n_own > 0, "nfeasible": n_true, "n_own_feasible": n_own, "ambiguous": ambiguous, "L": L}
     else:
         vecs = refmodels.reachable_sorted_copies(values, cl, k)
         feas = [v for v in vecs if _constraint_ok(plan["constraint"], v)]
@@ -319,7 +391,16 @@ def _judge(plan, outcome, cache):
     ref = _reference(plan, cache)
     kind, val = outcome
     out = []
+    if ref.get("ambiguous"):
+        return out
     if kind == "exc":
+        if ref["kind"] == "weighted":
+            if ref["own_feasible"]:
+                out.append(("raised-but-feasible", {"exception": type(val).__name__, "message": str(val)[:160]}))
+            elif ref["feasible"]:
+                out.append(("weighted-optimal", {"why": "refused although an assignment with non-ascending weighted sums satisfies the constraint",
+                                                 "exception": type(val).__name__}))
+            return out
         if ref["feasible"]:
             out.append(("raised-but-feasible", {"exception": type(val).__name__, "message": str(val)[:160]}))
         return out
@@ -366,15 +447,41 @@ def _judge(plan, outcome, cache):
         v = refmodels.objective_value(plan["objective"], sums)
         if v != ref["optimum"] and not out:
             out.append(("not-optimal", {"value": canon(v), "optimum": canon(ref["optimum"]), "sums": sums}))
-    else:
+    elif not out:
         w = plan["weights"]
-        v = refmodels.objective_value(plan["objective"], [s / wi for s, wi in zip(sums, w)])
-        if abs(v - ref["optimum"]) > 1e-9 * max(1.0, abs(ref["optimum"])) and not out:
-            best_perm = min(refmodels.objective_value(plan["objective"], [s / wi for s, wi in zip(p, w)]) for p in itertools.permutations(sums))
-            if abs(best_perm - ref["optimum"]) <= 1e-9 * max(1.0, abs(ref["optimum"])):
-                out.append(("weighted-order", {"sums": sums, "weights": w, "value_in_returned_order": v, "optimum": ref["optimum"]}))
+        L, m = _scale(w)
+        con = plan["constraint"]
+        if any(not float(x).is_integer() for x in sums):
+            return [("sums-mismatch", {"why": "non-integer sum of integer items", "sums": sums})]
+        isums = [int(x) for x in sums]
+
+        def scaled(p):
+            return [x * mi for x, mi in zip(p, m)]
+
+        def con_ok(wv_sorted):
+            return con is None or _constraint_ok_scaled(con, wv_sorted, L)
+        wv = scaled(isums)
+        v = refmodels.objective_value(plan["objective"], wv)
+        if not (con_ok(sorted(wv)) and v == ref["optimum"]):
+            # Not what the property states. How far off? (a) is some other assignment of the returned bins to the weights
+            # optimal (-> only the order is wrong)? (b) is the answer at least an optimum of the model prtpy itself builds
+            # (weighted sums ascending in bin order)? The open known finding explains (a) and everything down to (b);
+            # an answer worse than (b) is a different defect and has its own clause.
+            perms = set(itertools.permutations(isums))
+            cand = [refmodels.objective_value(plan["objective"], scaled(p)) for p in perms if con_ok(sorted(scaled(p)))]
+            best_perm = min(cand) if cand else None
+            own = [refmodels.objective_value(plan["objective"], scaled(p)) for p in perms
+                   if all(a <= b for a, b in zip(scaled(p), scaled(p)[1:])) and con_ok(scaled(p))]
+            best_own = min(own) if own else None
+            det = {"sums": sums, "weights": w, "constraint": con, "scale": L, "value_in_returned_order": v, "optimum": ref["optimum"],
+                   "best_over_orders_of_returned_bins": best_perm, "own_model_optimum": ref["own_optimum"],
+                   "best_own_model_reading_of_returned_bins": best_own}
+            if best_perm is not None and best_perm == ref["optimum"]:
+                out.append(("weighted-order", det))
             else:
-                out.append(("weighted-optimal", {"sums": sums, "weights": w, "value": v, "best_over_orders_of_returned_bins": best_perm, "optimum": ref["optimum"]}))
+                out.append(("weighted-optimal", det))
+            if best_own is None or best_own != ref["own_optimum"]:
+                out.append(("weighted-worse-than-own-model", det))
     return out
 
 
@@ -469,6 +576,15 @@ def execute(plan, seed=0):
                         res.violations = [v for v in res.violations if v["clause"] != "not-optimal"]
                         res.violate("uniform-weights-changed-value", weights=plan["weights"], with_weights=canon(outcome2[1]), without=canon(o3[1]))
         ref = _reference(plan, cache)
+        if ref["kind"] == "weighted":
+            if ref.get("ambiguous"):
+                res.note("weighted_constraint_too_close_to_a_reachable_sum_not_judged")
+            elif plan["constraint"] is not None:
+                res.probe("weighted_constraint_judged_against_own_model")
+                if ref["feasible"] and not ref["own_feasible"]:
+                    res.probe("weighted_constraint_feasible_only_for_non_ascending_assignment")
+            if ref["own_optimum"] is not None and ref["own_optimum"] != ref["optimum"]:
+                res.probe("weighted_own_model_optimum_worse_than_true_optimum")
         if not ref["feasible"]:
             res.probe("infeasible_constraint")
             if outcome[0] == "exc":
